@@ -53,11 +53,55 @@ func runC01(p *core.Prog, r *core.Result) {
 		return false, ""
 	}
 	// depsFresh: the fact says that no dependency was found out of date
-	depsFresh := func(cond ssa.Value, val bool) bool {
-		resolve := func(x ssa.Value) (bool, string) {
+	var depsFresh func(cond ssa.Value, val bool) bool
+	depsFresh = func(cond ssa.Value, val bool) bool {
+		// a verdict computed from the carrier (len(outOfDate) == 0, a helper's result) with further "out of date"
+		// verdicts merged in behind it: a phi of such a value and constant false
+		if ph, isPhi := core.Unwrap(cond).(*ssa.Phi); isPhi && val && !core.Reaches(ph.Block(), ph.Block(), false) {
+			if ok, _ := isCarrier(ph); !ok {
+				okAll, some := true, false
+				for _, e := range ph.Edges {
+					if b, isConst := core.ConstBool(e); isConst && !b {
+						continue
+					}
+					if _, isConst := e.(*ssa.Const); !isConst && depsFresh(e, true) {
+						some = true
+						continue
+					}
+					okAll = false
+				}
+				if okAll && some {
+					return true
+				}
+			}
+		}
+		var resolve func(x ssa.Value) (bool, string)
+		resolve = func(x ssa.Value) (bool, string) {
 			x = core.Unwrap(x)
 			if ok, k := isCarrier(x); ok {
 				return true, k
+			}
+			// the list of out-of-date dependencies with more appended behind the loop (removed dependencies): an
+			// empty result still implies that the loop found none
+			if c, isCall := x.(*ssa.Call); isCall {
+				if b, isB := c.Call.Value.(*ssa.Builtin); isB && b.Name() == "append" {
+					if ok, k := resolve(c.Call.Args[0]); ok && k == "slice" {
+						return true, "slice"
+					}
+				}
+			}
+			if ph, isPhi := x.(*ssa.Phi); isPhi && !core.Reaches(ph.Block(), ph.Block(), false) {
+				if _, isSlice := ph.Type().Underlying().(*types.Slice); isSlice {
+					all := len(ph.Edges) > 0
+					for _, e := range ph.Edges {
+						if ok, k := resolve(e); !ok || k != "slice" {
+							all = false
+						}
+					}
+					if all {
+						return true, "slice"
+					}
+				}
 			}
 			// the carrier with further "out of date" verdicts merged in after the loop (phi of the carrier and
 			// constant false): fresh still implies that the loop found every dependency up to date
@@ -82,7 +126,7 @@ func runC01(p *core.Prog, r *core.Result) {
 				for _, ret := range core.ReturnsOf(m.DepsFn) {
 					vals := core.RetVals(ret)
 					if e.Index < len(vals) {
-						if ok, k := isCarrier(vals[e.Index]); ok {
+						if ok, k := resolve(vals[e.Index]); ok {
 							return true, k
 						}
 					}
